@@ -286,6 +286,8 @@ def run_check(pid: str, tier: str, verif_seed: int, runs: int | None, workers: i
             print(f"HARNESS-ERROR property={pid} kind=determinism-selfcheck-failed-to-run\n{p.stdout[-800:]}{p.stderr[-1500:]}")
             return 2
         for k, d in other.items():
+            if k not in agg["digests"]:
+                continue  # that run was not executed (wall cap)
             det_info["checked"] += 1
             if agg["digests"].get(k) != d:
                 det_info["mismatches"] += 1
